@@ -1,11 +1,14 @@
-"""must-fail canaries (DESIGN 2.7): the real function against a deliberately wrong reference"""
+"""must-fail canaries (DESIGN 2.7): deliberately wrong implementations (contracts/canary_impl, independent of
+/repo) against the correct references.  A canary that verifies means the engine or the contract is vacuous."""
 from pyvc.driver import Job
 from .jobs_basic import src_pred, one_src, I
+
+O = {"impl_root": "contracts/canary_impl", "extra_modules": ("canary",)}
 
 
 def jobs():
     return [
-        Job("canary:filter-vs-yield-before-test", ("builtins", "filter"), ("ref_canary", "filter_yield_before_test"), src_pred(), props=("C01", "C05", "C06", "C03")),
-        Job("canary:max-vs-last-of-ties", ("builtins", "max"), ("ref_canary", "max_last_of_ties"), one_src(), kind="coro", props=("C02",)),
-        Job("canary:enumerate-vs-step2", ("builtins", "enumerate"), ("ref_canary", "enumerate_no_release"), one_src([I("start")]), props=("C01", "C04", "C18")),
+        Job("canary:filter-yields-before-test", ("canary", "filter_yield_before_test"), ("ref_builtins", "filter"), src_pred(), props=("C01", "C05", "C06", "C03"), opts=O),
+        Job("canary:max-last-of-ties", ("canary", "max_last_of_ties"), ("ref_builtins", "max"), one_src(), kind="coro", props=("C02",), opts=O),
+        Job("canary:enumerate-leaks-source", ("canary", "enumerate_leaky"), ("ref_builtins", "enumerate"), one_src([I("start")]), props=("C01", "C04", "C18"), opts=O),
     ]
